@@ -223,6 +223,26 @@ static void run_history(const RefKey& k, const std::vector<Op>& ops, RankReport&
             if (rep.verdict != "ok") break;
         }
         if (rep.verdict != "ok") break;
+        // (iv) an element whose terms were purged on request is unevaluable by design - evaluation throws. If the container
+        // nevertheless RETURNS a value for it, that value must still be the right one: silently returning something else
+        // (e.g. 0 from empty term lists) is a wrong answer, not a refusal.
+        for (auto& kv : model.orb) {
+            if (kv.second != CLEARED) continue;
+            for (auto& qs : orbit(kv.first)) {
+                auto it = Chi.ElementsMap.find(quad(qs));
+                if (it == Chi.ElementsMap.end()) continue;
+                try {
+                    int ti = (int)(oi + 2) % NTRIPLES;
+                    ComplexType v = it->second(TRIPLES[ti][0], TRIPLES[ti][1], TRIPLES[ti][2]);
+                    ComplexType r = ref.vals.at(qs)[ti];
+                    rep.checks++;
+                    if (!close_enough(v, r)) { std::ostringstream d; d << where << ": the terms of " << qs << " were cleared, yet container(" << qs << ")(" << TRIPLES[ti][0] << "," << TRIPLES[ti][1] << "," << TRIPLES[ti][2] << ") returns " << v << " instead of throwing; the directly constructed 2PGF gives " << r; fail("value-mismatch", d.str()); break; }
+                } catch (sim::Abort&) { throw; }
+                catch (std::exception&) { /* refusing to evaluate purged terms is the documented behaviour */ }
+            }
+            if (rep.verdict != "ok") break;
+        }
+        if (rep.verdict != "ok") break;
         // (i) the property's own antecedent: whatever reports Computed must agree with the direct value;
         // (iii) exchange identities between container entries
         for (auto& kv : Chi.ElementsMap) {
@@ -273,7 +293,8 @@ static std::string gen_ops(hc::Rng& r, int nm) {
         if (!have && x < 60) x = r.below(33);
         if (x < 25) { op = "P:" + ((nm == 2 && r.pct(10)) ? std::string("*") : pickset()); have = true; }
         else if (x < 33) { op = "F:" + pickset(); have = true; }
-        else if (x < 58) { op = std::string(r.pct(12) ? "X:" : "C:") + (r.pct(65) ? "s" : "n"); if (r.pct(50)) op += ":" + models::rand_freqs(r, r.range(1, 3)); }
+        else if (x < 58) { op = std::string(r.pct(12) ? "X:" : "C:") + (r.pct(65) ? "s" : "n"); if (r.pct(50)) op += ":" + models::rand_freqs(r, r.range(1, 3));
+                           if (r.pct(35)) op += std::string("|C:") + (r.pct(65) ? "s" : "n"); }   // a bulk computation repeated with nothing new in between
         else if (x < 66) op = "L:" + r.pick(pool);
         else if (x < 76) op = "p:" + r.pick(pool);
         else if (x < 86) op = "c:" + r.pick(pool);
